@@ -12,6 +12,8 @@ def check_error(err, call, info) -> list[str]:
     import pest
     from pest.exceptions import error_context
 
+    if not isinstance(err, Exception):
+        return []
     rule, text, start_pos = call
     problems: list[str] = []
 
